@@ -133,6 +133,8 @@ inductive Call where
   | body (kind : BodyKind) (bytes : Bytes)
   /-- `body_form(&pairs)` -/
   | bodyForm (pairs : List (Bytes × Bytes))
+  /-- `body(Body::from_reader(reader, None))`: MIME `application/octet-stream`, length not known in advance -/
+  | bodyReader (bytes : Bytes)
   /-- `query(&q)`: the URL after `set_query` (serde_qs + `Url::set_query`, opaque) -/
   | query (urlAfter : Bytes)
 deriving DecidableEq, Repr
@@ -143,14 +145,16 @@ structure Req where
   url : Bytes
   headers : Headers
   body : Bytes
+  /-- `Body::len().is_some()` (every constructor except `from_reader(_, None)`) -/
+  lenKnown : Bool
 deriving DecidableEq, Repr
 
 /-- http-types request.rs:223-227,474-478 `replace_body` + `copy_content_type_from_body` -/
 def copyContentType (h : Headers) (mime : Bytes) : Headers :=
   if h.contains ctName then h else h.insert ctName [mime]
 
-def setBody (r : Req) (k : BodyKind) (b : Bytes) : Req :=
-  { r with body := b, headers := copyContentType r.headers k.mime }
+def setBody (r : Req) (k : BodyKind) (b : Bytes) (known : Bool := true) : Req :=
+  { r with body := b, lenKnown := known, headers := copyContentType r.headers k.mime }
 
 /-- `none` = panic: `HeaderName::from(&str)` / `to_header_values().unwrap()` reject non-ASCII
     (header_name.rs:71-75, header_value.rs:61-67, headers.rs:44) -/
@@ -160,6 +164,7 @@ def applyCall (r : Req) : Call → Option Req
   | .contentType d => some { r with headers := r.headers.insert ctName [d] }
   | .body k b => some (setBody r k b)
   | .bodyForm ps => some (setBody r .form (formEncode ps))
+  | .bodyReader b => some (setBody r .bytes b false)
   | .query u => some { r with url := u }
 
 def foldCalls (r : Req) : List Call → Option Req
@@ -168,10 +173,12 @@ def foldCalls (r : Req) : List Call → Option Req
     | none => none
     | some r' => foldCalls r' cs
 
-/-- protocol.rs:190-218: a non-empty body is taken out with `take_body()` (which runs
-    `copy_content_type_from_body` for the empty replacement body, MIME `application/octet-stream`) -/
+/-- protocol.rs:190-218: `if self.is_empty() == Some(false)` the body is taken out with `take_body()` (which runs
+    `copy_content_type_from_body` for the empty replacement body, MIME `application/octet-stream`) and read;
+    otherwise — empty, **or of unknown length (`is_empty()` is `None`)** — the request goes out with `vec![]`. -/
 def intoProtocol (r : Req) : Req :=
-  if r.body.isEmpty then r else { r with headers := copyContentType r.headers octetStream }
+  if r.lenKnown && !r.body.isEmpty then { r with headers := copyContentType r.headers octetStream }
+  else { r with body := [] }
 
 structure ReqCase where
   /-- `get` … `patch` (convenience constructors) or an upper-case method name (`request(method, url)`) -/
@@ -194,7 +201,7 @@ deriving DecidableEq, Repr
 /-- `Http::get(url)…build()` / `caps.http.get(url)…send(..)`: `Request::new`, the calls, `into_protocol_request`,
     one `request_from_shell` (command.rs:585-596, client.rs:112-124). -/
 def buildRequest (c : ReqCase) : ReqObs :=
-  match foldCalls { method := upper c.method, url := c.url, headers := [], body := [] } c.calls with
+  match foldCalls { method := upper c.method, url := c.url, headers := [], body := [], lenKnown := true } c.calls with
   | none => .panic .header
   | some r =>
     let p := intoProtocol r
